@@ -490,6 +490,7 @@ fn gen_c07(seed: u64, idx: usize, _tier: Tier) -> C07Scenario {
         _ => 0,
     };
     g.links_left = if g.rng.chance(1, 8) { 1 } else { 0 };
+    g.bulk_left = if g.rng.chance(1, 8) { 1 } else { 0 };
     for _ in 0..np {
         let nd = g.rng.range(1, 8);
         let dirty: Vec<GitOp> = (0..nd).map(|_| g.repo_op()).collect();
@@ -508,7 +509,13 @@ fn gen_c07(seed: u64, idx: usize, _tier: Tier) -> C07Scenario {
                     // prefer the big file when there is one; one edit in four keeps an old mtime
                     let big: Vec<&String> = wt.iter().filter(|p| p.ends_with(".big")).collect();
                     let path = if !big.is_empty() && g.rng.chance(1, 2) { big[0].clone() } else { wt[g.rng.below(wt.len())].clone() };
-                    if g.rng.chance(1, 4) { GitOp::EditOld { path } } else { GitOp::Edit { path } }
+                    let has_lines = g.model.wt.get(&path).map(|c| c.contains('\n')).unwrap_or(false) && !path.ends_with("dirlink");
+                    match g.rng.below(8) {
+                        0 | 1 => GitOp::EditOld { path },
+                        // only the line terminators change: content the file never had
+                        2 if has_lines => GitOp::Crlf { path },
+                        _ => GitOp::Edit { path },
+                    }
                 }
                 _ => {
                     let n = g.model.wt.len() + g.model.commits.len() * 100 + edits.len();
@@ -626,13 +633,16 @@ fn exec_c07_inner(sc: &C07Scenario) -> Outcome {
                 return out;
             }
             match op {
-                GitOp::Create { path } | GitOp::Edit { path } | GitOp::EditOld { path } | GitOp::Delete { path } => {
+                GitOp::Create { path } | GitOp::Edit { path } | GitOp::EditOld { path } | GitOp::Delete { path } | GitOp::Crlf { path } => {
                     edited.insert(path.clone());
                     if path.ends_with(".big") {
                         out.fault("edit_beyond_the_first_mib_of_a_large_file", 1);
                     }
                     if matches!(op, GitOp::EditOld { .. }) {
                         out.fault("edit_keeping_an_old_mtime", 1);
+                    }
+                    if matches!(op, GitOp::Crlf { .. }) {
+                        out.fault("edit_of_line_terminators_only", 1);
                     }
                 }
                 _ => {}
@@ -783,12 +793,15 @@ fn gen_c19(seed: u64, idx: usize, _tier: Tier) -> GitScenario {
                     g.model.apply(&o);
                     o
                 }
-                2 | 3 => {
+                2 => {
                     let p = format!("{}/e{}.txt", g.dirs[g.rng.below(g.dirs.len())], ops.len());
                     let o = GitOp::Create { path: p };
                     g.model.apply(&o);
                     o
                 }
+                // any repository operation of the shared generator: edits, deletions of tracked files (a pending
+                // entry with an empty checksum), moves, staging, packed refs ...
+                3 => g.repo_op(),
                 4..=7 => {
                     let nc = g.model.commits.len();
                     match g.rng.below(4) {
